@@ -2,6 +2,7 @@ package clustermc
 
 import (
 	"encoding/json"
+	"os"
 	"fmt"
 	"sort"
 	"strings"
@@ -243,6 +244,9 @@ func (f *Family) Explore(scn *Scenario, tier string, maxStates int) *ScenarioSta
 					}
 				}
 				dl := decisionLog(res.Decisions)
+				if os.Getenv("VERIF_VERBOSE") != "" {
+					fmt.Fprintf(os.Stderr, "%s %v + cycle[%s] => %s\n", scn.Name, n.path, j.cfg.Label(), dl)
+				}
 				outcomes[engine.HashKey(dl)] = true
 				if len(st.SampleTrace) < 3 && len(res.Decisions) > 0 {
 					st.SampleTrace = append(st.SampleTrace, fmt.Sprintf("%v + cycle[%s] => %s", n.path, j.cfg.Label(), dl))
